@@ -1206,3 +1206,100 @@ def pow10(n):
     return float('inf') if n > 0 else 0.0
 
 
+
+
+# ----------------------------------------------------------------------------------------------
+# correspondence of the Precompute model (KflPre.v) with kfl.Parse + kfl.Precompute
+
+PRE_HEADER = ("Require Import V.Base.Prelude V.Kfl.Num V.Kfl.Json V.Kfl.KflAst V.Kfl.JPath V.Kfl.KflOps V.Kfl.KflEval "
+              "V.Kfl.KflTie V.Kfl.KflPre V.Kfl.KflPreTie V.Kfl.KflWf.\nLocal Open Scope Z_scope.\n")
+
+
+def parse_nested_n(out, name):
+    """'<name> = [[[97%N; 98%N]; []]; ...]' -> list of list of bytes"""
+    m = re.search(re.escape(name) + r"\s*=\s*(\[.*?\])\s*:\s*list", out, re.S)
+    if not m:
+        return None
+    txt = re.sub(r"%N", "", m.group(1)).replace(";", ",")
+    txt = re.sub(r"\s+", "", txt)
+    try:
+        v = json.loads(txt)
+    except ValueError:
+        return None
+    return [[bytes(x) for x in case] for case in v]
+
+
+def check_precompute(ctx, pairs, evals, now_ns, name="kpre", chunk=80):
+    """pairs: (query, record) texts; evals: the answers of `vh-kfl eval -k` for them.  Returns (compared, problems)."""
+    from concurrent.futures import ThreadPoolExecutor
+    queries = sorted({q for q, _ in pairs}, key=lambda x: (len(x), x))
+    sres = run_cases(ctx, "surface", [[q] for q in queries])
+    surface = {q: o for q, o in zip(queries, sres)}
+    cases = []
+    for (q, r), o in zip(pairs, evals):
+        so = surface.get(q, {})
+        if so.get("outcome") != "ok" or so.get("shape") or not o.get("rec") or not o.get("rec_ok") or not o.get("tables") \
+                or o.get("unsupported") or o.get("redact"):
+            continue
+        if o.get("outcome") == "ok":
+            obs = "Some (%s, %s%%N)" % ("true" if o["truth"] else "false", o["limit"])
+        elif o.get("outcome") == "error" and o.get("stage") == "prepare":
+            obs = "None"
+        else:
+            continue
+        cases.append((q, r, so, o, obs))
+    if not cases:
+        return 0, []
+    # round 1: the strings the model hands to jp.ParseString
+    asts = sorted({c[2]["ast"] for c in cases})
+    needed = {}
+
+    def round1(k):
+        part = asts[k:k + chunk]
+        src = PRE_HEADER + "Definition X := Eval vm_compute in map needed_paths [\n" + ";\n".join(part) + "].\nPrint X.\n"
+        rc, out = ctx.coq_run("%s_r1_%d" % (name, k), src, timeout=600)
+        got = parse_nested_n(out, "X")
+        return part, got, out
+    with ThreadPoolExecutor(max_workers=8) as ex:
+        for part, got, out in ex.map(round1, range(0, len(asts), chunk)):
+            if got is None or len(got) != len(part):
+                ctx.log(out[-800:])
+                return 0, ["K_precompute: coqc failed in round 1"]
+            for a, g in zip(part, got):
+                needed[a] = g
+    strings = sorted({s for g in needed.values() for s in g})
+    pres = run_cases(ctx, "paths", [[s] for s in strings])
+    ptab = {s: o.get("coq", "None") for s, o in zip(strings, pres)}
+    items = []
+    for q, r, so, o, obs in cases:
+        entries = "; ".join("(%s, %s)" % (vlib.coq_bytes(s), ptab[s]) for s in sorted(set(needed[so["ast"]])))
+        pt = "(PTables [%s] %s)" % (entries, so["regexes"])
+        items.append("(%s, %s, (%d)%%Z, %s, %s, %s)" % (o["tables"], pt, now_ns, so["ast"], o["rec"], obs))
+    defs = "Definition case_t := (tables * ptables * Z * expr * jv * option (bool * N))%type.\n"
+
+    def round2(k):
+        src = (PRE_HEADER + defs + "Definition cases : list case_t := [\n" + ";\n".join(items[k:k + chunk]) + "].\n"
+               "Definition M := Eval vm_compute in map pre_code cases.\nPrint M.\n")
+        rc, out = ctx.coq_run("%s_r2_%d" % (name, k), src, timeout=900)
+        got = vlib.parse_coq_list_of_nat(out, "M")
+        return k, got, out
+    codes = []
+    with ThreadPoolExecutor(max_workers=8) as ex:
+        for k, got, out in ex.map(round2, range(0, len(items), chunk)):
+            if got is None or len(got) != len(items[k:k + chunk]):
+                ctx.log(out[-800:])
+                return 0, ["K_precompute: coqc failed in round 2"]
+            codes += got
+    problems = []
+    for code, (q, r, so, o, obs) in zip(codes, cases):
+        if code & 1:
+            problems.append("K_precompute: err result of the model differs from Precompute on %r" % (q,))
+        if code & 2:
+            problems.append("K_precompute: the tree of the model evaluates differently from the prepared query on %r / %s" % (q, r))
+        if code & 4:
+            problems.append("K_precompute: Limit of the model differs on %r" % (q,))
+        if code & 8:
+            problems.append("K_precompute: the model panics on %r" % (q,))
+        if code & 16:
+            problems.append("K_surface: the tree kfl.Parse returns for %r violates shape_expr / surf_expr (hypotheses of C13_precompute_no_panic)" % (q,))
+    return len(codes), problems
